@@ -154,6 +154,9 @@ class ForeignGen:
                 if r.random() < 0.5:
                     bp["bp%d" % i] = "http://bundle%d.example/" % i
                     names = names + ["bp%d" % i]
+                if r.random() < 0.3:
+                    # the bundle re-binds a prefix of the document to another namespace (its names then live there)
+                    bp["tr"] = "http://bundle%d.example/tr#" % i
                 bdefault = default
                 if r.random() < 0.2:
                     bp["default"] = "http://default.example/"      # same default namespace re-declared in the bundle
